@@ -694,6 +694,14 @@ def _get_data_atom(resp: str, scn):
             return errors_truthy
         if t in (f"{J}.get('errors') is None",):
             return None if has_errors is None else (not has_errors or None)
+        # key-set forms of the shape test: keys().isdisjoint({...}) / set intersection
+        ee = strip_pre(e)
+        if isinstance(ee, ast.Call) and isinstance(ee.func, ast.Attribute) and ee.func.attr == "isdisjoint" and len(ee.args) == 1 and norm(ee.func.value) in (f"{J}.keys()", J) \
+                and isinstance(ee.args[0], (ast.Set, ast.Tuple, ast.List)) and all(isinstance(x, ast.Constant) for x in ee.args[0].elts):
+            keys = {x.value for x in ee.args[0].elts}
+            if not is_dict or not keys <= {"data", "errors"} or has_data is None or has_errors is None:
+                return None
+            return not (("data" in keys and has_data) or ("errors" in keys and has_errors))
         return None
     return atom
 
